@@ -161,6 +161,27 @@ Proof. exact gen_idevice2_hess. Qed.
 Theorem C14_source_gdevice_hess : forall n g (s : list R), GDevice_hess (A:=R) n g s = gdev_hess g s.
 Proof. exact gen_gdevice_hess. Qed.
 
+(* ---- the Hessians of the combinators regenerated from functions.py (Gen/Functions.v): hess = fhess of the AST node; in particular
+        ReflectedFunction.hess evaluates the operand's Hessian AT -x, SumFunction adds the operands' matrices, InnerSumFunction returns
+        f''*ones((n,n)), X2D / Poly2D / Poly2DOffset a diagonal ---- *)
+From DK.Model Require Import FnOps.
+From DK.Gen Require Import Functions.
+From DK.Proofs Require Import GenFunctions.
+Theorem C14_source_function_combinators : forall (fs : list (fn R)) (g : fn R) pl ph xl xh qs cs offs (x : list R),
+  SumFunction_hess (map fobj_of fs) x = fhess (FSum fs) x /\
+  ReflectedFunction_hess (fobj_of g) x = fhess (FReflect g) x /\
+  InnerSumFunction_hess (sfobj_hl (pl, ph, xl, xh)) x = fhess (FInnerHL pl ph xl xh) x /\
+  X2D_hess (map sfobj_hl qs) x = fhess (FX2D qs) x /\
+  Poly2D_hess cs x = fhess (FPoly2D cs) x /\
+  Poly2DOffset_hess cs offs x = fhess (FPoly2DOffset cs offs) x /\
+  NullFunction_hess x = fhess FNull x.
+Proof.
+  intros fs g pl ph xl xh qs cs offs x.
+  pose proof (gen_sum fs x) as [_ [_ S]]. pose proof (gen_reflect g x) as [_ [_ Rf]]. pose proof (gen_innersum pl ph xl xh x) as [_ [_ I]].
+  pose proof (gen_x2d qs x) as [_ [_ X]]. pose proof (gen_poly2d cs x) as [_ [_ P]]. pose proof (gen_poly2doffset cs offs x) as [_ [_ O]].
+  pose proof (gen_null x) as [_ [_ N]]. repeat split; assumption.
+Qed.
+
 (* ---- the two instances agree on the reported Hessian (Proofs/HomHess.v): what the correspondence evaluates on exact rationals maps
    through Q2R to the Hessians the theorems above speak about; every atomic kind except the ADevice function AST; integer exponents. ---- *)
 From Coq Require Import QArith Qreals.
